@@ -328,10 +328,10 @@ theorem chunks_spec {α : Type} (l : List α) (n : Nat) (cw : List (List α)) (h
       omega
 
 /-- hash-table keys of different (keyword, chunk number) pairs differ — collision-freeness of H on the distinct inputs
-    `F_k1(w) ‖ count` that `Setup` uses (chunk numbers run from 1 to at most the list length) -/
-def KeyInj (k1 : Bytes) (db : DB) : Prop :=
-  ∀ w ids w' ids' c c' key, (w, ids) ∈ db → (w', ids') ∈ db → 1 ≤ c → c ≤ ids.length → 1 ≤ c' → c' ≤ ids'.length →
-    htKey cfg lv k1 w c = .ok key → htKey cfg lv k1 w' c' = .ok key → w = w' ∧ c = c'
+    `F_k1(w) ‖ count` that `Setup` uses (chunk numbers run from 1 to the number of chunks of the keyword's list) -/
+def KeyInj (k1 : Bytes) (levels : List Int) (db : DB) : Prop :=
+  ∀ w ids w' ids' c c' key, (w, ids) ∈ db → (w', ids') ∈ db → 1 ≤ c → c ≤ nChunks cfg levels ids → 1 ≤ c' →
+    c' ≤ nChunks cfg levels ids' → htKey cfg lv k1 w c = .ok key → htKey cfg lv k1 w' c' = .ok key → w = w' ∧ c = c'
 
 /-- what `Setup` leaves for one keyword: its level, its chunks, and for every chunk a hash-table entry that leads to a
     bucket holding the chunk's identifiers -/
@@ -342,9 +342,9 @@ def StoredKw (ls : List Level) (HT : Table) (k1 k2 : Bytes) (levels : List Int) 
 
 theorem encDb_spec (k1 k2 : Bytes) (levels : List Int) (db : DB) (ls : List Level) (HT : Table) (t : Tape)
     (ls' : List Level) (HT' : Table) (t' : Tape) (h : encDb cfg lv k1 k2 levels db ls HT t = .ok (ls', HT', t'))
-    (hwf : ∀ l ∈ ls, WFL l) (hkeys : (db.map (·.1)).Nodup) (hinj : KeyInj cfg lv k1 db) :
+    (hwf : ∀ l ∈ ls, WFL l) (hkeys : (db.map (·.1)).Nodup) (hinj : KeyInj cfg lv k1 levels db) :
     (∀ l ∈ ls', WFL l) ∧ (∀ i x e, Holds ls i x e → Holds ls' i x e) ∧
-    (∀ key, (∀ w ids c, (w, ids) ∈ db → 1 ≤ c → c ≤ ids.length → htKey cfg lv k1 w c ≠ .ok key) → HT'.lookup key = HT.lookup key) ∧
+    (∀ key, (∀ w ids c, (w, ids) ∈ db → 1 ≤ c → c ≤ nChunks cfg levels ids → htKey cfg lv k1 w c ≠ .ok key) → HT'.lookup key = HT.lookup key) ∧
     ∀ w ids, (w, ids) ∈ db → StoredKw cfg lv ls' HT' k1 k2 levels w ids := by
   induction db generalizing ls HT t with
   | nil =>
@@ -379,7 +379,8 @@ theorem encDb_spec (k1 k2 : Bytes) (levels : List Int) (db : DB) (ls : List Leve
                 · cases hlvl
               have hlev := getLevel_lev ls iI lvl hget
               simp only [List.map_cons, List.nodup_cons] at hkeys
-              have hcwl : cw.length ≤ ids0.length := (chunks_spec ids0 _ cw hcw).2.2.1
+              have hcwl : cw.length ≤ nChunks cfg levels ids0 := by
+                rw [(chunks_spec ids0 _ cw hcw).2.1]; simp [nChunks, hi]
               obtain ⟨p1, p2, p3, p4, p5⟩ := placeChunks_spec cfg lv k1 k2 w0 iI.toNat cw 0 lvl HT t lvl1 HT1 t1 hr
                 (hwf lvl (getLevel_mem ls iI lvl hget))
                 (fun k k' key hk hk' he he' => by
@@ -393,7 +394,7 @@ theorem encDb_spec (k1 k2 : Bytes) (levels : List Int) (db : DB) (ls : List Leve
                 split
                 · exact p2
                 · exact hwf a ha
-              have hinj' : KeyInj cfg lv k1 rest := fun w ids w' ids' c c' key hm hm' =>
+              have hinj' : KeyInj cfg lv k1 levels rest := fun w ids w' ids' c c' key hm hm' =>
                 hinj w ids w' ids' c c' key (by simp [hm]) (by simp [hm'])
               obtain ⟨i1, i2, i3, i4⟩ := ih (setLevel ls lvl1) HT1 t1 h hwf1 hkeys.2 hinj'
               have hmono1 : ∀ i x e, Holds ls i x e → Holds (setLevel ls lvl1) i x e := by
@@ -1137,8 +1138,9 @@ theorem search_present (raw : RawCfg) (hcfg : DP17.cfgBuild raw = .ok cfg) (hl :
     (hs : setup cfg lv [k1, k2, k3] db t = .ok (edb, t'))
     (hkeys : (db.map (·.1)).Nodup)
     (hidl : ∀ p ∈ db, ∀ id ∈ p.2, (id.length : Int) = cfg.idSize)
-    (hinj : KeyInj cfg lv k1 db) (hperm : PermsGood t)
-    (hfresh : ∀ b, Draw.bytes b ∈ t → ∀ w ids c, (w, ids) ∈ db → 1 ≤ c → c ≤ ids.length → htKey cfg lv k1 w c ≠ .ok b)
+    (hinj : ∀ levels, levelsOf cfg db.total = .ok levels → KeyInj cfg lv k1 levels db) (hperm : PermsGood t)
+    (hfresh : ∀ levels, levelsOf cfg db.total = .ok levels → ∀ b, Draw.bytes b ∈ t → ∀ w ids c, (w, ids) ∈ db → 1 ≤ c →
+      c ≤ nChunks cfg levels ids → htKey cfg lv k1 w c ≠ .ok b)
     (w : Bytes) (ids : List Bytes) (hm : (w, ids) ∈ db) (tk : List Bytes) (htk : token cfg lv [k1, k2, k3] w = .ok tk)
     (res : List Bytes) (hres : search cfg lv edb tk = .ok res) : ∀ id ∈ ids, id ∈ res := by
   obtain ⟨hplain, hlam, hclen⟩ := cfgBuild_ok cfg raw hcfg
@@ -1174,7 +1176,7 @@ theorem search_present (raw : RawCfg) (hcfg : DP17.cfgBuild raw = .ok cfg) (hl :
               cases hs
               -- the levels Setup starts from
               have hfr := initLevels_fresh db.total levels [] ls0 hinit (fun l hl => by cases hl)
-              obtain ⟨_, _, _, e4⟩ := encDb_spec cfg lv k1 k2 levels db ls0 [] t ls1 HT t1 henc (fun l hl => (hfr l hl).1) hkeys hinj
+              obtain ⟨_, _, _, e4⟩ := encDb_spec cfg lv k1 k2 levels db ls0 [] t ls1 HT t1 henc (fun l hl => (hfr l hl).1) hkeys (hinj levels hlevels)
               have hlen1 : ∀ l ∈ ls1, ∀ b ∈ l.buckets, EntLen cfg n b := by
                 have := encDb_ent cfg lv (fun e => ∀ w id, e = some (w, id) → id.length + cfg.lambda.toNat = n)
                   k1 k2 levels db ls0 [] t ls1 HT t1 henc
@@ -1188,6 +1190,7 @@ theorem search_present (raw : RawCfg) (hcfg : DP17.cfgBuild raw = .ok cfg) (hl :
               have hs2 := (fillHT_suffix _ _ _ _ _ _ hfill).trans hs1
               obtain ⟨i, cw, hfa, hcw, hall⟩ := e4 w ids hm
               obtain ⟨hflat, hcwlen, hcwle, _⟩ := chunks_spec ids _ cw hcw
+              have hnc : cw.length = nChunks cfg levels ids := by rw [hcwlen]; simp [nChunks, hfa]
               have hL : cw.length ≤ cfg.L.toNat := by
                 rw [hcwlen]; exact fits_chunks cfg i ids.length (findAdjacent_fits cfg levels ids.length i hfa)
               have himem : (i : Int) ∈ levels := findLoop_mem cfg levels _ _ _ _ _ hfa
@@ -1216,7 +1219,7 @@ theorem search_present (raw : RawCfg) (hcfg : DP17.cfgBuild raw = .ok cfg) (hl :
                     have hHT' : HT'.lookup key = some v := by
                       rw [fillHT_lookup _ _ _ _ _ _ hfill key (fun b hb e => by
                         obtain ⟨pre, rfl⟩ := hs1
-                        exact hfresh b (List.mem_append_right _ hb) w ids (k + 1) hm (by omega) (by omega) (by rw [e]; exact a1))]
+                        exact hfresh levels hlevels b (List.mem_append_right _ hb) w ids (k + 1) hm (by omega) (by omega) (by rw [e]; exact a1))]
                       exact a3
                     -- the level arrays
                     obtain ⟨arr, cs, d1, d2, d3, etag', c0, d4, d5, d6⟩ :=
@@ -1230,5 +1233,16 @@ theorem search_present (raw : RawCfg) (hcfg : DP17.cfgBuild raw = .ok cfg) (hl :
                       (by rw [hclen]; omega)
                     exact searchCounts_mem cfg lv _ tag vtag etag _ 1 res hres (k + 1) (by omega) (by omega) key _ a1 hone id
                       (scan_mem cfg lv etag cs c0 id d5 d6)
+
+/-- probes that all miss the hash table give the empty result -/
+theorem searchCounts_absent (edb : DP17EDB) (tag vtag etag : Bytes) (more start : Nat)
+    (h : ∀ c, start ≤ c → c < start + more → ∃ key, hashH cfg lv (tag ++ natToBytesMin c) = .ok key ∧ edb.HT.get key = none) :
+    searchCounts cfg lv edb tag vtag etag more start = .ok [] := by
+  induction more generalizing start with
+  | zero => rfl
+  | succ m ih =>
+    obtain ⟨key, hk, hn⟩ := h start (by omega) (by omega)
+    simp [searchCounts, hk, searchOne, hn, ih (start + 1) (fun c h1 h2 => h c (by omega) (by omega)), bind, Except.bind,
+      pure, Except.pure]
 
 end SSEPy.Sch.DP17
